@@ -1,0 +1,38 @@
+//go:build verif
+
+package pdf
+
+import "sync"
+
+// Hooks for the verification harness in /verif (build tag verif).  With the
+// tag off these functions are empty (verif_sched_off.go).
+
+// VerifSchedHook, if set, is called at every scheduling point of the
+// extractor cache protocol.  done is non-nil when the caller is about to wait
+// for that channel.
+var VerifSchedHook func(point string, done <-chan struct{})
+
+// VerifLockHook, if set, is called when a critical section of the extractor
+// cache is entered without its mutex being held.
+var VerifLockHook func(where string)
+
+func verifSched(point string) {
+	if h := VerifSchedHook; h != nil {
+		h(point, nil)
+	}
+}
+
+func verifSchedWait(point string, done <-chan struct{}) {
+	if h := VerifSchedHook; h != nil {
+		h(point, done)
+	}
+}
+
+func verifLocked(mu *sync.Mutex, where string) {
+	if h := VerifLockHook; h != nil {
+		if mu.TryLock() {
+			mu.Unlock()
+			h(where)
+		}
+	}
+}
